@@ -331,6 +331,7 @@ def run(ctx):
         "method that also feeds the cached total their fitness reads; single-closure objectives evaluate the same closure in both methods (Q2). Sign / unit "
         "agreement by abstract interpretation (S1): assigning a job is quoted as -estimator(job) while the fitness sums +estimator(job); inserting into an unused "
         "tour is quoted as exactly the +-1 by which the tour-count value changes, into a used tour as 0.")
+    ctx.explanation += ' The cached tour distance that the distance fitness reads is accumulated over legs queried in travel direction (shared rule C01-D1).'
     ctx.not_decided = "numeric equality of quote and objective change; objectives with two independent closures beyond the tour count (arrival time, WorkBalance)."
     ctx.run("C20-Q1", "quote = route-level estimate + activity-level estimate, threaded to every leg; one component per layer", q1_quote_composition, floor=9)
     ctx.run("C20-S1", "sign/size agreement of quote and objective change: unassigned jobs (−estimator vs +estimator), tour count (±1 per opened tour)", s1_sign_agreement, floor=4)
